@@ -36,7 +36,16 @@ TQ(nu) == CASE nu = 1 -> <<1000000, 1839473, 6313752, 12706205, 63656741>>
             [] nu = 4 -> <<740697, 1142465, 2131847, 2776445, 4604095>>
             [] nu = 5 -> <<726687, 1111299, 2015048, 2570582, 4032143>>
             [] nu = 6 -> <<717558, 1091333, 1943180, 2446912, 3707428>>
+            [] nu = 7 -> <<711142, 1077458, 1894579, 2364624, 3499483>>
             [] nu = 8 -> <<706387, 1067259, 1859548, 2306004, 3355387>>
+            [] nu = 9 -> <<702722, 1059447, 1833113, 2262157, 3249836>>
+            [] nu = 11 -> <<697445, 1048272, 1795885, 2200985, 3105807>>
+            [] nu = 13 -> <<693829, 1040664, 1770933, 2160369, 3012276>>
+            [] nu = 14 -> <<692417, 1037703, 1761310, 2144787, 2976843>>
+            [] nu = 16 -> <<690132, 1032926, 1745884, 2119905, 2920782>>
+            [] nu = 17 -> <<689195, 1030971, 1739607, 2109816, 2898231>>
+            [] nu = 18 -> <<688364, 1029239, 1734064, 2100922, 2878440>>
+            [] nu = 19 -> <<687621, 1027694, 1729133, 2093024, 2860935>>
             [] nu = 10 -> <<699812, 1053274, 1812461, 2228139, 3169273>>
             [] nu = 12 -> <<695483, 1044138, 1782288, 2178813, 3054540>>
             [] nu = 15 -> <<691197, 1035150, 1753050, 2131450, 2946713>>
@@ -80,7 +89,7 @@ TQFine(nu) == CASE nu = 1 -> [v |-> 2136141486, d |-> 3]
                 [] OTHER -> [v |-> 0, d |-> 0]
 \* degrees of freedom beyond the lattice: reached by replicating the rows of an instance (ReplLaw);
 \* 5000..5005 are consecutive so that every instance (N <= 6) reaches a sample count above 5000
-BigNus == {8, 10, 12, 15, 20, 24, 30, 31, 32, 40, 50, 60, 80, 100, 120, 200, 300, 500, 1000, 1001, 1200, 1500, 2000, 3000, 5000, 5001, 5002, 5003, 5004, 5005}
+BigNus == {7, 8, 9, 10, 11, 12, 13, 14, 15, 16, 17, 18, 19, 20, 24, 30, 31, 32, 40, 50, 60, 80, 100, 120, 200, 300, 500, 1000, 1001, 1200, 1500, 2000, 3000, 5000, 5001, 5002, 5003, 5004, 5005}
 \* the quantile decreases with the degrees of freedom and stays above the normal quantile
 NormalQ == <<674490, 1000642, 1644854, 1959964, 2575829>>
 TQDecreasing == \A i \in 1..5 :
@@ -190,10 +199,15 @@ ReplLaw(f, x, w, a, c, r0, K) ==
        /\ \A i, j \in 1..(f.M + f.P) : Gram(HwK)[i][j] = K * Gram(Hw)[i][j]
        /\ Dot(rwK, rwK) = K * Dot(rw, rw)
        /\ (Stationary(f, x, w, a, c, r0) => \A j \in 1..(f.M + f.P) : Dot(Col(HwK, j), rwK) = 0)
-\* multipliers that land on a tabulated number of degrees of freedom (at most the smallest and the largest)
+\* multipliers that land on a tabulated number of degrees of freedom: the smallest, the largest, and the
+\* smallest and largest among those with 24 .. 1001 degrees of freedom
 ReplChoices(f, x) ==
   LET all == {K \in 2..2600 : ReplNu(f, x, K) \in BigNus}
-  IN IF all = {} THEN {} ELSE {CHOOSE K \in all : \A L \in all : K <= L, CHOOSE K \in all : \A L \in all : K >= L}
+      mid == {K \in all : ReplNu(f, x, K) >= 24 /\ ReplNu(f, x, K) <= 1001}
+      Min(S) == CHOOSE K \in S : \A L \in S : K <= L
+      Max(S) == CHOOSE K \in S : \A L \in S : K >= L
+  IN IF all = {} THEN {}
+     ELSE {Min(all), Max(all)} \cup (IF mid = {} THEN {} ELSE {Min(mid), Max(mid)})
 
 (* ---------------- theorems about the definitions ---------------- *)
 CovSym(e) == e.lvl = 1 => \A i, j \in 1..Len(e.adj) : e.adj[i][j] = e.adj[j][i]
